@@ -67,7 +67,7 @@ Section C03.
   (* with cd commands in the list the law still holds, each part being judged in the
      directory it would run in *)
   Lemma list_join_cd c ss fs ks : let t := T $"list" ss fs ks in
-    walk c t = combine (map (fun p => walk (fst p) (snd p)) (seq_ctxs cdres c (seq_parts t))).
+    walk c t = combine (map (fun p => walk (fst p) (snd p)) (seq_ctxs cdres (init_state c) (list_items t))).
   Proof. intro t. subst t. rewrite walk_list, sequence_ctxs. reflexivity. Qed.
 
   (* transparent wrappers: ! cmd, time cmd, name() body, coproc cmd, ( body ), { body; } *)
